@@ -236,7 +236,11 @@ theorem undo_apply_id (cfg : Cfg) (hc : Contract cfg) (t : Tree) (p : Plan) (g :
     simp only [hpf, Bool.not_true, Bool.false_eq_true, if_false, hcp, hr, backupPhase, hcur] at hok ⊢
     by_cases hall : (sortedFiles p.hunks).all (fun f => readable (moveAll p.rens t1) (finalPath p.rens f)) = true
     · simp [hall]
-    · simp [hall] at hok
+    · exfalso
+      rw [if_neg hall] at hok
+      split at hok
+      · split at hok <;> simp at hok
+      · simp at hok
   obtain ⟨happ, hall⟩ := happ
   -- what `generate_reverse_patches` stores
   let r : Result := ⟨.ok, moveAll p.rens t1, (sortRens p.rens).map (fun r => (r.path, finalPath p.rens r.path))⟩
